@@ -220,6 +220,15 @@ def build_call(case, _built=None):
         args += [case['p']]
     elif sim == 'discrete_SIR':
         kw['args'] = (case['p'],)
+        if case.get('stay'):
+            # user recovery test (a public keyword of discrete_SIR): node i stays infectious for about stay[i] steps
+            # (stateless, so that the same call object can be used repeatedly: recovery with probability 1/stay[i] per step, drawn from the
+            # seeded global generator)
+            stay = {lab(i): k for i, k in enumerate(case['stay'])}
+
+            def test_recovery(u, *a):
+                return stay[u] <= 1 or random.random() < 1.0 / stay[u]
+            kw['test_recovery'] = test_recovery
     elif sim == 'fast_nonMarkov_SIR':
         kw.update(make_sir_rule(case['rule'], G))
     elif sim == 'fast_nonMarkov_SIS':
@@ -370,6 +379,8 @@ def random_sim_case(r, sim, nmax=14, tmaxes=None):
             case['tmax'] = case['tmin'] + 4
     if sim in GENERIC_SIMS and r.random() < 0.25:
         case['ic_extra'] = True
+    if sim == 'discrete_SIR' and r.random() < 0.3:
+        case['stay'] = [r.choice([1, 1, 2, 3]) for _ in range(case['graph']['n'])]
     if r.random() < 0.12:
         ph = gen.make_prehistory(r, case['graph'])
         if ph:
